@@ -100,6 +100,15 @@ Theorem C15_pem_armour_roundtrip : forall known name keytype data wrap public,
 Proof. exact pem_roundtrip. Qed.
 Print Assumptions C15_pem_armour_roundtrip.
 
+(* Trailing whitespace tolerated by the footer match (misc.match_base64, as on HEAD): after the footer
+   text any run of blank, TAB, CR, FF, VT on the line - hence CRLF and CR-terminated files - and any
+   number of whitespace-only lines after it; the match then ends at the end of the data. *)
+Theorem C15_footer_trailing_whitespace : forall footer ws blanks,
+  all_ws ws = true -> forallb all_ws blanks = true ->
+  find_footer footer ((footer ++ ws) :: blanks) = Some ([], []).
+Proof. exact footer_trailing_whitespace. Qed.
+Print Assumptions C15_footer_trailing_whitespace.
+
 (* The one-line OpenSSH public format (code of record, after fdd47d0): for every comment without LF/CR
    that neither starts nor ends with a blank the export succeeds and algorithm, blob and comment are
    read back. *)
